@@ -25,6 +25,17 @@ CHECKS = {
         design="7/C20"),
 }
 
+CHECKS["C06"] = dict(
+    text=("Theorems (Props/C06.v) about the Gallina model of the partial-order projection shared by Linear "
+          "dominances and categorical ordering pairs (every pair satisfied for every pair list with a valid "
+          "topological order; feasible weights unchanged) and of linear_lib.project / categorical project. The model "
+          "is tied to the code by projecting the same float64 matrices with LinearConstraints / "
+          "CategoricalCalibrationConstraints on every run; the topological order is re-validated in Coq per case."),
+    note="Models: Model/PartialOrder.v, Model/LinearProject.v. The order-2 norm's square root is an oracle in "
+         "theorems and a truncated Newton iteration in execution.",
+    technique="Coq proof over Q model + in-Coq correspondence with the constraint objects",
+    design="7/C06")
+
 NOT_YET = {}
 
 
